@@ -307,4 +307,105 @@ theorem deadlock_free (c : Cfg L τ) (hi : Inv c) (hnf : ¬ c.final) : ∃ c', S
           · exact Or.inl hu
           · exact Or.inr (Or.inr hu)
 
+/-! ### Region level -/
+
+theorem flat_region_tail (k : Nat) (lines : List (L → τ → L × τ)) (rest : List (Instr L τ))
+    (h : Flat none rest) : Flat (some k) (lines.map (Instr.upd k) ++ .rel k :: rest) := by
+  induction lines with
+  | nil => exact ⟨rfl, h⟩
+  | cons f fs ih => exact ⟨rfl, ih⟩
+
+theorem flat_progOf : ∀ rs : List (Region L τ), Flat none (progOf rs)
+  | [] => trivial
+  | r :: rs => by
+    simp only [progOf, Region.prog, List.cons_append, List.append_assoc]
+    exact flat_region_tail r.k r.lines (progOf rs) (flat_progOf rs)
+
+theorem finish_region (k : Nat) (lines : List (L → τ → L × τ)) (rest : List (Instr L τ)) (l : L) (x : τ) :
+    finish (lines.map (Instr.upd k) ++ .rel k :: rest) l x = (rest, composeLines lines l x) := by
+  induction lines generalizing l x with
+  | nil => rfl
+  | cons f fs ih => simp only [List.map_cons, List.cons_append, finish, composeLines]; exact ih _ _
+
+theorem progOf_eq_nil {rs : List (Region L τ)} (h : progOf rs = []) : rs = [] := by
+  cases rs with
+  | nil => rfl
+  | cons r rs => simp [progOf, Region.prog] at h
+
+theorem progOf_cons_acq {rs : List (Region L τ)} {k : Nat} {rest : List (Instr L τ)}
+    (h : progOf rs = .acq k :: rest) :
+    ∃ r rs', rs = r :: rs' ∧ r.k = k ∧ rest = r.lines.map (Instr.upd r.k) ++ .rel r.k :: progOf rs' := by
+  cases rs with
+  | nil => simp [progOf] at h
+  | cons r rs' =>
+    simp only [progOf, Region.prog, List.cons_append, List.append_assoc, List.singleton_append,
+      List.cons.injEq, Instr.acq.injEq] at h
+    exact ⟨r, rs', rfl, h.1, h.2.symm⟩
+
+/-- an atomic step of the instruction-level configuration of a region-level configuration is a region step -/
+theorem astep_rstep (rc : RCfg L τ) (c' : Cfg L τ) (h : AStep rc.toCfg c') :
+    ∃ rc', c' = rc'.toCfg ∧ RStep rc rc' := by
+  obtain ⟨st, ts⟩ := rc
+  generalize hc : (RCfg.toCfg ⟨st, ts⟩ : Cfg L τ) = c at h
+  cases h with
+  | @region st' pre post k rest l =>
+    simp only [RCfg.toCfg, Cfg.mk.injEq] at hc
+    obtain ⟨rfl, hts⟩ := hc
+    obtain ⟨pre', mid, post', rfl, hpre, hmid, hpost⟩ : ∃ pre' mid post', ts = pre' ++ mid :: post' ∧
+        pre'.map RThread.toThread = pre ∧ mid.toThread = ⟨.acq k :: rest, none, l⟩ ∧
+        post'.map RThread.toThread = post := by
+      rw [List.map_eq_append_iff] at hts
+      obtain ⟨a, b, rfl, ha, hb⟩ := hts
+      rw [List.map_eq_cons_iff] at hb
+      obtain ⟨m, b', rfl, hm, hb'⟩ := hb
+      exact ⟨a, m, b', rfl, ha, hm, hb'⟩
+    obtain ⟨todo, loc⟩ := mid
+    simp only [RThread.toThread, Thread.mk.injEq, true_and] at hmid
+    obtain ⟨hprog, rfl⟩ := hmid
+    obtain ⟨r, rs', rfl, rfl, rfl⟩ := progOf_cons_acq hprog
+    refine ⟨⟨upd1 st r.k (r.eff loc (st r.k)).2, pre' ++ ⟨rs', (r.eff loc (st r.k)).1⟩ :: post'⟩, ?_, RStep.run⟩
+    simp only [RCfg.toCfg, List.map_append, List.map_cons, hpre, hpost, RThread.toThread, finish_region,
+      Region.eff]
+
+theorem astar_rstar (rc0 : RCfg L τ) (c : Cfg L τ) (h : Star AStep rc0.toCfg c) :
+    ∃ rc, c = rc.toCfg ∧ Star RStep rc0 rc := by
+  induction h with
+  | refl => exact ⟨rc0, rfl, Star.refl _⟩
+  | tail _ hstep ih =>
+    obtain ⟨rc, rfl, hs⟩ := ih
+    obtain ⟨rc', rfl, hr⟩ := astep_rstep rc _ hstep
+    exact ⟨rc', rfl, Star.tail hs hr⟩
+
+theorem toCfg_quiescent (rc : RCfg L τ) : rc.toCfg.quiescent := by
+  intro t ht
+  simp only [RCfg.toCfg, List.mem_map] at ht
+  obtain ⟨u, _, rfl⟩ := ht
+  rfl
+
+theorem toCfg_flat (rc : RCfg L τ) : ∀ t ∈ rc.toCfg.threads, Flat t.held t.prog := by
+  intro t ht
+  simp only [RCfg.toCfg, List.mem_map] at ht
+  obtain ⟨u, _, rfl⟩ := ht
+  exact flat_progOf u.todo
+
+/-- **Serializability at region granularity.**  Threads that run critical regions (each cut into lines in any way)
+    under the flat discipline: whatever the interleaving of lines, every quiescent configuration reached — in
+    particular the final one — is reached by running whole regions one after the other, in some order that keeps
+    each thread's own order.  Shared components, thread-local states (return values) and remaining work agree. -/
+theorem serializable_regions (rc0 : RCfg L τ) (c : Cfg L τ) (hs : Star Step rc0.toCfg c) (hq : c.quiescent) :
+    ∃ rc, c = rc.toCfg ∧ Star RStep rc0 rc :=
+  astar_rstar rc0 c (serializable rc0.toCfg c (toCfg_flat rc0) (toCfg_quiescent rc0) hs hq)
+
+/-- No reachable configuration of such threads is deadlocked. -/
+theorem deadlock_free_regions (rc0 : RCfg L τ) (c : Cfg L τ) (hs : Star Step rc0.toCfg c) (hnf : ¬ c.final) :
+    ∃ c', Step c c' :=
+  deadlock_free c (star_inv (inv_init rc0.toCfg (toCfg_flat rc0) (toCfg_quiescent rc0)) hs) hnf
+
+/-- an invariant of the region-level semantics holds in every reachable region-level configuration -/
+theorem rstar_induct {P : RCfg L τ → Prop} {a b : RCfg L τ} (h0 : P a)
+    (hstep : ∀ x y, P x → RStep x y → P y) (hs : Star RStep a b) : P b := by
+  induction hs with
+  | refl => exact h0
+  | tail _ hr ih => exact hstep _ _ ih hr
+
 end Operon.Lock
